@@ -93,14 +93,14 @@ open Classical in
 /-- **from the cut property of the flags to the cut condition on the shape** -/
 theorem cutShape_of_good : ∀ (gs : List Gate) (fl : List Bool) (X : List Edge),
     (∀ g ∈ gs, g.qubits.length = 1 ∨ g.qubits.length = 2) →
-    (∀ g ∈ gs, isCnot g = false → g.name.toUpper ≠ "POSTPROCESSED CNOT") →
+    (∀ g ∈ gs, isCnot g = false → g.qubits.length = 2 → g.name.toUpper ≠ "POSTPROCESSED CNOT") →
     fl.length = (cnotPairs gs).length → Good (cnotPairs gs) fl X → (∀ e ∈ otherPairs gs, e ∈ X) →
     CutShape (convShape true gs (relabel gs fl))
   | [], _, _, _, _, _, _, _ => by simp [relabel, convShape, CutShape]
   | g :: gs, fl, X, hq, hname, hlen, hgood, hX => by
     have hq' : ∀ g' ∈ gs, g'.qubits.length = 1 ∨ g'.qubits.length = 2 :=
       fun g' hg' => hq g' (List.mem_cons_of_mem _ hg')
-    have hname' : ∀ g' ∈ gs, isCnot g' = false → g'.name.toUpper ≠ "POSTPROCESSED CNOT" :=
+    have hname' : ∀ g' ∈ gs, isCnot g' = false → g'.qubits.length = 2 → g'.name.toUpper ≠ "POSTPROCESSED CNOT" :=
       fun g' hg' => hname g' (List.mem_cons_of_mem _ hg')
     have hX' : ∀ e ∈ otherPairs gs, e ∈ X := fun e he => hX e (otherPairs_mem_cons he)
     -- closure of a cut under the later gates ⇒ `respectsB` for every later entry of the shape
@@ -167,13 +167,13 @@ theorem cutShape_of_good : ∀ (gs : List Gate) (fl : List Bool) (X : List Edge)
       simp only [convShape, CutShape]
       refine ⟨fun hlk => ?_, ih⟩
       rw [Bool.and_eq_true] at hlk
-      exact absurd (twoQubitKind_pp (by simpa using hlk.2)) (hname g List.mem_cons_self hc')
+      exact absurd (twoQubitKind_pp (by simpa using hlk.2)) (hname g List.mem_cons_self hc' (by simpa using hlk.1))
 
 /-- **the labelling `label_cnots_in_gate_sequence` computes always satisfies the cut condition** (repaired
 labelling, `use_postselection = True`; gates on one or two qubits; no foreign gate is called "postprocessed cnot") -/
 theorem label_cutShape (gs : List Gate)
     (hq : ∀ g ∈ gs, g.qubits.length = 1 ∨ g.qubits.length = 2)
-    (hname : ∀ g ∈ gs, isCnot g = false → g.name.toUpper ≠ "POSTPROCESSED CNOT") :
+    (hname : ∀ g ∈ gs, isCnot g = false → g.qubits.length = 2 → g.name.toUpper ≠ "POSTPROCESSED CNOT") :
     CutShape (convShape true gs (labelCnots true gs)) := by
   unfold labelCnots cnotFlags
   apply cutShape_of_good gs _ (otherPairs gs) hq hname
@@ -418,7 +418,7 @@ theorem cutCheck_iff (sh : List (List ℕ × Bool)) : cutCheck sh = true ↔ Cut
 /-- **the labelling passes the check the driver runs** -/
 theorem label_cutCheck (gs : List Gate)
     (hq : ∀ g ∈ gs, g.qubits.length = 1 ∨ g.qubits.length = 2)
-    (hname : ∀ g ∈ gs, isCnot g = false → g.name.toUpper ≠ "POSTPROCESSED CNOT") :
+    (hname : ∀ g ∈ gs, isCnot g = false → g.qubits.length = 2 → g.name.toUpper ≠ "POSTPROCESSED CNOT") :
     cutCheck (convShape true gs (labelCnots true gs)) = true :=
   cutCheck_complete _ (label_cutShape gs hq hname)
 
